@@ -208,3 +208,76 @@ func VerifC35Request() {
 	verifObserve("changed", o)
 	verifObserve("sent", uint64(len(w.to)))
 }
+
+// c35Message builds the wire bytes of one lighthouse message (see VerifC35Request for the layout).
+func c35Message(typ uint8, form int, claimed, relay uint32) []byte {
+	var d []byte
+	switch form {
+	case 0:
+		d = append(d, 0x08)
+		d = c35Pad5(d, claimed)
+	case 1:
+		d = c35AddrMsg(d, 0x32, claimed)
+	}
+	d = append(d, 0x12, 12, 0x08)
+	d = c35Pad5(d, 0x01020304)
+	d = append(d, 0x10)
+	d = c35Pad5(d, 4242)
+	switch form {
+	case 0:
+		d = append(d, 0x2a, 5)
+		d = c35Pad5(d, relay)
+	case 1:
+		d = c35AddrMsg(d, 0x3a, relay)
+	}
+	p := []byte{0x08, typ}
+	p = append(p, 0x12, byte(len(d)))
+	return append(p, d...)
+}
+
+// VerifC35Reuse: one handler serves two messages in a row (as the receive loop does). The first is a v1-encoded
+// message of a type that has no effect (HostMovedNotification) claiming an arbitrary address, from anyone; the
+// second, in v2 encoding (with or without a claimed address), must be judged exactly as on a fresh handler.
+func VerifC35Reuse() {
+	amLighthouse := verifBool("am_lighthouse")
+	menu := [...]uint32{c35U32(c35A1), c35U32(c35A2), c35U32(c35B), c35U32(c35LH), c35U32(c35C)}
+	addrs := [...]netip.Addr{c35A1, c35A2, c35B, c35LH, c35C}
+	first := c35Message(uint8(NebulaMeta_HostMovedNotification), 0, menu[verifInt("first_claimed", 0, 4)], menu[0])
+	form2 := 1 + verifCase("second_has_no_claim") // 1: v2 with claimed address, 2: no claimed address
+	ci := verifInt("second_claimed", 0, 4)
+	typ2 := uint8(NebulaMeta_HostUpdateNotification)
+	if !amLighthouse {
+		typ2 = uint8(NebulaMeta_HostQueryReply)
+	}
+	second := c35Message(typ2, form2, menu[ci], menu[0])
+	from2 := []netip.Addr{c35A1, c35A2}
+	if !amLighthouse {
+		from2 = []netip.Addr{c35LH}
+	}
+	var keys [2][5]bool
+	var sent [2]int
+	for run := 0; run < 2; run++ {
+		w := &c35Writer{}
+		nets := new(bart.Lite)
+		nets.Insert(netip.MustParsePrefix("10.128.0.0/24"))
+		lh := &LightHouse{l: c35Log, amLighthouse: amLighthouse, myVpnNetworksTable: nets, punchy: &Punchy{}, addrMap: map[netip.Addr]*RemoteList{}, ifce: w}
+		lhs := []netip.Addr{c35LH}
+		lh.lighthouses.Store(&lhs)
+		lh.remoteAllowList.Store(&RemoteAllowList{})
+		lhh := lh.NewRequestHandler()
+		if run == 0 {
+			lhh.HandleRequest(netip.AddrPortFrom(netip.AddrFrom4([4]byte{9, 9, 9, 9}), 4242), []netip.Addr{c35C}, first, w)
+			verifAssert(len(lh.addrMap) == 0 && len(w.to) == 0, "a message type without effect changes nothing")
+		}
+		lhh.HandleRequest(netip.AddrPortFrom(netip.AddrFrom4([4]byte{9, 9, 9, 8}), 4242), from2, second, w)
+		for k, a := range addrs {
+			_, keys[run][k] = lh.addrMap[a]
+		}
+		sent[run] = len(w.to)
+	}
+	for k := 0; k < 5; k++ {
+		verifAssert(keys[0][k] == keys[1][k], "what a message records does not depend on earlier messages served by the same handler")
+	}
+	verifAssert(sent[0] == sent[1], "what a message is answered with does not depend on earlier messages served by the same handler")
+	verifObserve("sent", uint64(sent[1]))
+}
